@@ -21,20 +21,52 @@ type View struct {
 	// events of the main client's run, by plugin source
 	Starts map[string][]world.Event
 	Ends   map[string][]world.Event
+	// Events are the events of this client's run (plus events that belong to no deployment).
+	Events []world.Event
+	// Shutdown is the decision at which the caller's goroutine started closing the run's steps (0: never).
+	Shutdown int64
 }
 
 // NewView builds the analysis for the first client of a case.
 func NewView(c *Case, r *harness.Result) (*View, error) {
+	return NewViewFor(c, r, 0)
+}
+
+// NewViewFor builds the analysis of the run of client i: the model is evaluated for that client's
+// input and only the events of deployments made by that client's run are considered.
+func NewViewFor(c *Case, r *harness.Result, i int) (*View, error) {
 	v := &View{C: c, R: r, Starts: map[string][]world.Event{}, Ends: map[string][]world.Event{}}
-	doc, err := c.NormDoc()
+	docAny := map[string]any(c.Doc)
+	name := "c0"
+	if i < len(c.Clients) {
+		name = c.Clients[i].Name
+		if m, ok := c.Clients[i].Input.(map[string]any); ok {
+			docAny = m
+		}
+	}
+	doc, err := ref.NormalizeInput(false, jsonNorm(docAny).(map[string]any))
 	if err != nil {
 		return nil, fmt.Errorf("case document is not valid for the model: %w", err)
 	}
 	v.Facts = ref.Natural(c.Program, doc)
-	if len(r.Clients) > 0 {
-		v.C0 = r.Clients[0]
+	if i < len(r.Clients) {
+		v.C0 = r.Clients[i]
+	}
+	v.Shutdown = ShutdownSeq(r, name)
+	mine := map[int]bool{}
+	prefix := "env/client/" + name + "/"
+	for _, e := range r.Events {
+		if e.Kind == world.EvDeployBegin && !e.Probe {
+			if by, _ := e.Data["by"].(string); strings.HasPrefix(by, prefix) {
+				mine[e.Dep] = true
+			}
+		}
 	}
 	for _, e := range r.Events {
+		if e.Dep != 0 && !e.Probe && !mine[e.Dep] {
+			continue
+		}
+		v.Events = append(v.Events, e)
 		switch e.Kind {
 		case world.EvExecStart:
 			v.Starts[e.Src] = append(v.Starts[e.Src], e)
@@ -333,7 +365,7 @@ func stepOfSrc(p *ir.Program, src string) (*ir.Program, string) {
 func OracleMayRun(prop string, v *View) []Violation {
 	var out []Violation
 	doc := v.Facts.Input
-	obs := Observe(v.C.Program, doc, v.R.Events, 0)
+	obs := Observe(v.C.Program, doc, v.Events, 0)
 	for src, evs := range v.Starts {
 		prog, id := stepOfSrc(v.C.Program, src)
 		if prog != v.C.Program {
@@ -396,7 +428,7 @@ func OracleInputs(prop string, v *View) []Violation {
 			continue
 		}
 		ev := evs[0]
-		obs := Observe(prog, v.Facts.Input, v.R.Events, ev.Seq-1)
+		obs := Observe(prog, v.Facts.Input, v.Events, ev.Seq-1, v.Shutdown)
 		r := obs.Eval(ir.Obj(st.In...))
 		if r.St != ref.OK {
 			continue // a start without its prerequisites is C04's finding
@@ -419,7 +451,7 @@ func OracleInputs(prop string, v *View) []Violation {
 		}
 	}
 	// deploy-time expressions: the run deployment follows what they need and uses their values
-	for _, e := range v.R.Events {
+	for _, e := range v.Events {
 		if e.Kind != world.EvDeployBegin || e.Probe {
 			continue
 		}
@@ -431,7 +463,7 @@ func OracleInputs(prop string, v *View) []Violation {
 		if st == nil || st.Deploy == nil {
 			continue
 		}
-		obs := Observe(prog, v.Facts.Input, v.R.Events, e.Seq-1)
+		obs := Observe(prog, v.Facts.Input, v.Events, e.Seq-1)
 		for name, x := range map[string]*ir.Expr{"latency_ms": st.Deploy.Latency, "mode": st.Deploy.Mode} {
 			if x == nil {
 				continue
